@@ -15,7 +15,7 @@
    trace afterwards (`step_ok`), and the plumbing used by tools/checks/c09_path.py to replay observed
    network histories.  No proofs here. *)
 From Coq Require Import ZArith List Bool.
-From IPV8V Require Import gen.G09_rules model.M09_reclaim.
+From IPV8V Require Import gen.G09_rules model.M09_reclaim spec.S09_reclaim.
 Import ListNotations.
 Open Scope Z_scope.
 
@@ -385,5 +385,275 @@ Definition run_ncase (c : ncase) : Z :=
     else if negb (net_tables_eqb wT (nc_end c)) then 13
     else if negb (all_on_time st wT (nc_T c)) then 14
     else if negb (nc_tq c + B_path st (nc_D c) (p_len (nc_path c)) <? nc_T c) then 15
+    else if net_holds wT ids then 16
+    else 0.
+
+(* ================================================================ circuits under construction *)
+(* While a circuit is being built its ids are not a fixed path: the originator retries the first create
+   with other candidates under the same id, a node asked to extend allocates a fresh id for every attempt,
+   and every node that accepted a create holds an exit socket for it.  The ids that hang off one circuit
+   form a tree, recorded per id: its level (1 = the originator's own id), the node at its upper end (which
+   allocated it and sends downwards on it), the id that this node held when it allocated it (none for
+   level 1), and the nodes at its lower end (the candidates it was offered to).  The family of a run is a
+   ghost: it is computed from the observed history (tools/checks/c09_path.py) or given with the trace, and
+   the theorem holds for every family that passes the checks below. *)
+Record finfo := mkF { f_lvl : nat; f_par : Z; f_from : option Z; f_tgts : list Z }.
+Definition family := list (Z * finfo).
+
+Definition inl (n : Z) (l : list Z) : bool := existsb (Z.eqb n) l.
+Definition inF (F : family) (x : Z) : bool := ahas x F.
+Definition optz_is (o : option Z) (z : Z) : bool := match o with Some y => y =? z | None => false end.
+
+Section Build.
+Variable st : settings.
+Variable D : Z.
+Variable F : family.
+Variable O : Z.          (* the originator *)
+Variable x0 : Z.         (* the id of its circuit *)
+Variable h : nat.        (* the depth of the family: the number of hops the circuit is to have *)
+Variable tq : Z.         (* by tq the originator has stopped: see the alive clause of bcirc_shape_b *)
+
+Definition finfo_ok_b (xi : Z * finfo) : bool :=
+  let i := snd xi in
+  (1 <=? f_lvl i)%nat && (f_lvl i <=? h)%nat && negb (inl (f_par i) (f_tgts i))
+  && match f_from i with
+     | None => (f_lvl i =? 1)%nat
+     | Some z => match aget z F with
+                 | Some iz => (f_lvl i =? S (f_lvl iz))%nat && inl (f_par i) (f_tgts iz)
+                 | None => false
+                 end
+     end.
+
+Definition fam_ok_b : bool :=
+  forallb finfo_ok_b F && nodup_b (map fst F)
+  && match aget x0 F with
+     | Some i0 => (f_lvl i0 =? 1)%nat && (f_par i0 =? O) && match f_from i0 with None => true | Some _ => false end
+     | None => false
+     end.
+
+Definition tgts0 : list Z := match aget x0 F with Some i0 => f_tgts i0 | None => [] end.
+
+(* the originator's entry: closing (the removal task sleeps), or still building - not ready - and created
+   early enough that the retry budget of the code runs out by tq *)
+Definition bcirc_shape_b (n : Z) (s : node) (kc : Z * circuit) : bool :=
+  let '(x, c) := kc in
+  negb (inF F x)
+  || ((n =? O) && (x =? x0) && inl (c_first c) tgts0 && (0 <=? c_hops c)
+      && (negb (c_hops c =? 0) || match c_unver c with Some u => inl u tgts0 | None => true end)
+      && ((c_closing c
+           && existsb (fun w => match w with
+                                | (due, KCirc, y) => (y =? x) && (due <=? tq + s_remove_delay st)
+                                | _ => false
+                                end) (sleeping s))
+          || (negb (c_closing c) && (c_hops c <? c_goal c)
+              && (creation (c_ro c) + build_bound st (c_goal c) + s_remove_delay st <=? tq)))).
+
+Definition fw_b (n x : Z) (ix : finfo) (r : relay) : bool :=
+  inl n (f_tgts ix)
+  && match aget (r_next r) F with
+     | Some iy => (f_par iy =? n) && optz_is (f_from iy) x && inl (r_peer r) (f_tgts iy)
+     | None => false
+     end.
+Definition bw_b (n : Z) (ix : finfo) (r : relay) : bool :=
+  (n =? f_par ix)
+  && match f_from ix with
+     | Some z => (r_next r =? z) && match aget z F with Some iz => r_peer r =? f_par iz | None => false end
+     | None => false
+     end.
+
+Definition brelay_shape_b (n : Z) (kr : Z * relay) : bool :=
+  let '(x, r) := kr in
+  match aget x F with
+  | Some ix => (la (r_ro r) <=? tq) && (fw_b n x ix r || bw_b n ix r)
+  | None => negb (inF F (r_next r))
+  end.
+
+Definition bexit_shape_b (n : Z) (ke : Z * exitsock) : bool :=
+  let '(x, e) := ke in
+  match aget x F with
+  | Some ix => inl n (f_tgts ix) && (e_peer e =? f_par ix) && (la (e_ro e) <=? tq)
+  | None => true
+  end.
+
+Definition bcreated_shape_b (n : Z) (kd : Z * Z) : bool :=
+  match aget (fst kd) F with Some ix => inl n (f_tgts ix) | None => true end.
+
+Definition cache_b (n : Z) (cc : createc) : bool :=
+  match aget (cc_to cc) F, aget (cc_from cc) F with
+  | Some iy, Some iz =>
+      (f_par iy =? n) && optz_is (f_from iy) (cc_from cc) && inl (cc_to_peer cc) (f_tgts iy)
+      && (cc_peer cc =? f_par iz)
+  | None, None => true
+  | _, _ => false
+  end.
+Definition bcreate_shape_b (n : Z) (kc : Z * createc) : bool := cache_b n (snd kc).
+
+Definition bretry_shape_b (n : Z) (kr : Z * retry) : bool :=
+  negb (inF F (fst kr)) || ((n =? O) && (fst kr =? x0)).
+
+Definition bstart_shape_b (n : Z) (s : node) (d : deferred) : bool :=
+  match d with
+  | DCreate src x _ =>
+      match aget x F with Some ix => inl n (f_tgts ix) && (src =? f_par ix) && (now s <=? tq) | None => true end
+  | DExtend _ x _ =>
+      match aget x F with Some ix => inl n (f_tgts ix) && (now s <=? tq) | None => true end
+  | DRetry x _ _ => negb (inF F x) || ((n =? O) && (x =? x0) && (now s <=? tq))
+  | DOpen x => negb (inF F x) || (now s <=? tq)
+  | DRemove _ _ _ _ => true
+  end.
+
+Definition bnode_shape_b (kn : Z * node) : bool :=
+  let '(n, s) := kn in
+  forallb (bcirc_shape_b n s) (circuits s) && forallb (brelay_shape_b n) (relays s)
+  && forallb (bexit_shape_b n) (exits s) && forallb (bcreated_shape_b n) (createds s)
+  && forallb (bcreate_shape_b n) (creates s) && forallb (bretry_shape_b n) (retries s)
+  && forallb (bstart_shape_b n s) (starts s).
+
+(* kinds: created / extended only travel upwards, create / extend (and pings) only downwards *)
+Definition kind_dn_b (mid : Z) : bool := negb (existsb (Z.eqb mid) [0; MSG_CREATED; MSG_EXTENDED]).
+Definition kind_upw_b (mid : Z) : bool := negb (existsb (Z.eqb mid) [0; MSG_CREATE; MSG_EXTEND; MSG_PING]).
+
+Definition bmsg_shape_b (m : msg) : bool :=
+  match m with
+  | FCell src dst x _ mid sent =>
+      match aget x F with
+      | Some ix =>
+          (sent <=? tq)
+          && (((src =? f_par ix) && inl dst (f_tgts ix) && kind_dn_b mid)
+              || ((dst =? f_par ix) && inl src (f_tgts ix) && kind_upw_b mid))
+      | None => true
+      end
+  | FDestroy _ _ _ _ _ => true
+  end.
+
+Definition build_shape_b (w : net) : bool :=
+  fam_ok_b && forallb bnode_shape_b (nodes w) && forallb bmsg_shape_b (flight w).
+
+(* ------------------------------------------------- assumptions on one step of a building run *)
+(* the event a label stands for at its node, with the node's state *)
+Definition label_event (w : net) (l : nlabel) : option (Z * node * ev) :=
+  match l with
+  | NDrop _ => None
+  | NLocal n e => match aget n (nodes w) with Some s => Some (n, s, e) | None => None end
+  | NDeliver i _ plain len cr ls =>
+      match nth_error (flight w) i with
+      | Some (FCell src dst cid early _ _) =>
+          match aget dst (nodes w) with
+          | Some s => Some (dst, s, ERecvCell src cid plain early len cr ls)
+          | None => None
+          end
+      | Some (FDestroy src dst cid reason _) =>
+          match aget dst (nodes w) with Some s => Some (dst, s, ERecvDestroy src cid reason) | None => None end
+      | None => None
+      end
+  end.
+
+(* a created answers the create it was sent for: the request cache it finds was opened for its circuit id *)
+Definition ident_ok_b (s : node) (e : ev) : bool :=
+  match e with
+  | ERecvCell _ cid _ _ _ (COk (MCreated ident _ _)) _ =>
+      match aget ident (creates s) with Some cc => cc_to cc =? cid | None => true end
+  | _ => true
+  end.
+
+Definition pick_in_tgts (p : pick) : bool :=
+  match p_next p with Some nxt => inl nxt tgts0 | None => true end.
+
+(* no traffic for the family from outside the modelled nodes or from the application; the circuit is created
+   by its originator only, early enough; ids of the family are allocated where the family says (a fresh id per
+   extend, never an id of the family for another circuit); the body of on_extend runs while the exit socket
+   it extends is still there *)
+Definition bquiet_b (t : Z) (local : bool) (n : Z) (s : node) (e : ev) : bool :=
+  match e with
+  | ERecvCell _ cid _ _ _ _ _ => negb local || negb (inF F cid)
+  | ESendData _ cid _ => negb (inF F cid)
+  | EOutside cid _ _ _ => negb (inF F cid)
+  | ECreateCircuit cid goal p _ =>
+      negb (inF F cid)
+      || ((n =? O) && (cid =? x0) && pick_in_tgts p && (t <=? tq) && (0 <? goal)
+          && (t + build_bound st goal + s_remove_delay st <=? tq))
+  | ERun i eo target to_cid _ p _ =>
+      match nth_error (starts s) i with
+      | Some (DExtend _ x _) =>
+          match aget x F with
+          | Some _ =>
+              negb eo
+              || ahas x (exits s)
+              && match aget to_cid F with
+                 | Some iy => (f_par iy =? n) && optz_is (f_from iy) x && inl target (f_tgts iy)
+                 | None => false
+                 end
+          | None => negb (inF F to_cid)
+          end
+      | Some (DRetry x _ _) =>
+          negb (inF F x)
+          || match aget x (circuits s) with
+             | Some c => negb (c_hops c =? 0) || pick_in_tgts p
+             | None => true
+             end
+      | _ => true
+      end
+  | _ => true
+  end.
+
+Definition is_local (l : nlabel) : bool := match l with NLocal _ _ => true | _ => false end.
+
+Definition step_events_ok (w : net) (tl : Z * nlabel) : bool :=
+  match label_event w (snd tl) with
+  | Some (n, s, e) => ident_ok_b s e && bquiet_b (fst tl) (is_local (snd tl)) n s e
+  | None => true
+  end.
+
+(* the circuit does not become ready: after the step the originator's entry is closing, gone, or still short
+   of its goal (a circuit that does become ready is the business of the other theorem) *)
+Definition unready_b (w : net) : bool :=
+  match aget O (nodes w) with
+  | Some s => match aget x0 (circuits s) with
+              | Some c => c_closing c || (c_hops c <? c_goal c)
+              | None => true
+              end
+  | None => true
+  end.
+
+Definition bstep_ok (w : net) (tl : Z * nlabel) : bool :=
+  step_timely st w tl && step_within D w tl && step_typed w tl && step_events_ok w tl
+  && unready_b (nstep st w tl).
+
+Fixpoint brun_ok (w : net) (tr : list (Z * nlabel)) : bool :=
+  match tr with
+  | [] => true
+  | tl :: rest => bstep_ok w tl && brun_ok (nstep st w tl) rest
+  end.
+
+End Build.
+
+(* the bound, counted from the creation of the circuit: the retry budget of the code (next_hop_timeout *
+   (circuit_timeout / next_hop_timeout + hops - 1)), the removal delay, then the path bound *)
+Definition B_build (st : settings) (D : Z) (goal : Z) (hops : nat) : Z :=
+  build_bound st goal + s_remove_delay st + B_path st D hops.
+
+(* replay of an observed building scenario: 0 = the model followed the implementation, the hypotheses of the
+   building theorem hold on the observed history and so does its conclusion (codes as run_ncase; 11 = the family
+   shape does not hold at the start, 12 = a step breaks an assumption) *)
+Record bcase := mkBCase {
+  bc_settings : settings; bc_names : list Z; bc_family : family; bc_origin : Z; bc_id : Z; bc_depth : nat;
+  bc_tq : Z; bc_D : Z; bc_T : Z;
+  bc_before : list nobs; bc_mid : list (Z * node); bc_after : list nobs; bc_end : list (Z * node)
+}.
+
+Definition run_bcase (c : bcase) : Z :=
+  let st := bc_settings c in
+  let ids := map fst (bc_family c) in
+  let '(code, wq) := nreplay st (init_net (bc_names c) 0) (bc_before c) 1 in
+  if negb (code =? 0) then code
+  else if negb (net_tables_eqb wq (bc_mid c)) then 10
+  else if negb (build_shape_b st (bc_family c) (bc_origin c) (bc_id c) (bc_depth c) (bc_tq c) wq) then 11
+  else
+    let '(code2, wT) := nreplay st wq (bc_after c) 1 in
+    if negb (code2 =? 0) then code2 + 500000
+    else if negb (brun_ok st (bc_D c) (bc_family c) (bc_origin c) (bc_id c) (bc_tq c) wq (labels_of (bc_after c))) then 12
+    else if negb (net_tables_eqb wT (bc_end c)) then 13
+    else if negb (all_on_time st wT (bc_T c)) then 14
+    else if negb (bc_tq c + B_path st (bc_D c) (bc_depth c) <? bc_T c) then 15
     else if net_holds wT ids then 16
     else 0.
